@@ -33,7 +33,7 @@ TRANSPARENT_SUFFIX = (
     "::copied", "::cloned", "::collect", "::enumerate", "::zip", "::take", "::ok", "::as_ptr", "::as_mut_ptr",
     "::branch", "::from_residual", "::map_err", "::to_string", "::try_into", "::try_from", "::split_at",
     "::chunks", "::chunks_exact", "::rev", "::remove", "::pop", "::drain", "::append", "::extend",
-    "::extend_from_slice", "::push", "::insert", "::replace", "::swap", "::from_output", "::unwrap_or",
+    "::extend_from_slice", "::push", "::insert", "::replace", "::swap", "::from_output", "::unwrap_or", "::map",
 )
 
 
